@@ -645,6 +645,17 @@ class PrecipitateBase(GenericModel):
     def _growthRate(self):
         raise NotImplementedError()
     
+    def _clearNucleationTerms(self, Y : PrecipitationData, p):
+        '''
+        No nucleation for phase p (negative driving force or no impingement): zero critical radius,
+        nucleation barrier, impingement rate, nucleation rate and nucleation radius
+        '''
+        Y.Rcrit[0,p] = 0
+        Y.Gcrit[0,p] = 0
+        Y.impingement[0,p] = 0
+        Y.nucRate[0,p] = 0
+        Y.Rnuc[0,p] = 0
+
     def _calcNucleationRate(self, t, x, Y : PrecipitationData):
         xComp = np.squeeze(Y.composition[0])
         T = Y.temperature[0]
@@ -657,6 +668,8 @@ class PrecipitateBase(GenericModel):
             _, volDG, self._precBetaTemp[p] = nucfuncs.volumetricDrivingForce(self.therm, xComp, T, precParams, aspectRatio, self.removeCache)
             Y.drivingForce[0,p] = volDG
             if volDG < 0:
+                # Y is a copy of the previous slice, so clear the nucleation terms instead of keeping the previous values
+                self._clearNucleationTerms(Y, p)
                 continue
 
             # Critical Gibbs free energy and radius at nucleation barrier
@@ -673,6 +686,7 @@ class PrecipitateBase(GenericModel):
             
             # If impingement is 0, then skip rest of calculations (no nucleation rate)
             if beta == 0:
+                self._clearNucleationTerms(Y, p)
                 continue
 
             # Zeldovich factor
